@@ -28,6 +28,7 @@ let root_handler op _ver args obs =
   let obs_cmp = (match obs with "PANIC" :: _ -> ["PANIC"] | o -> o) in
   let spec =
     match obs with
+    | ["TIMEOUT"] -> Some "the call did not return within its time budget"
     | "N" :: _ ->
       (try
         let o = mk (List.tl obs) in
@@ -93,7 +94,7 @@ let () =
     ["C01"; "C02"; "C03"; "C13"]
 
 (* ConcRoots g (ctor num den depth)* => obs_1 obs_2 ... : Numbers computed concurrently are independent *)
-let () = reg "C05" "ConcRoots" (fun ver args obs ->
+let conc_roots prop = reg prop "ConcRoots" (fun ver args obs ->
   let a = mk args in
   let g = next_int a in
   let rest = ref obs in
@@ -109,3 +110,7 @@ let () = reg "C05" "ConcRoots" (fun ver args obs ->
     done
   with Exhausted | Failure _ -> spec := Some "malformed observation");
   { model = !model; tags = ["concurrent-roots"]; spec = !spec; known = None })
+
+let () = conc_roots "C05"
+let () = conc_roots "C01"
+let () = conc_roots "C02"
